@@ -167,6 +167,29 @@ fn check(l: &mut Local<'_>, src: &Beatmap, target: u8, m: &ModSpec, dsets: &[Dif
             fail(l, "mode_or_ignore", &ctxs, format!("Performance::mode_or_ignore differs\n got : {got:?}\n want: {want:?}"));
             return false;
         }
+        // the builder's whole configuration (not only the Difficulty) must survive the mode switch
+        {
+            use rosu_pp::any::HitResultPriority;
+            type Cfg = (&'static str, fn(Performance<'_>) -> Performance<'_>);
+            let cfgs: [Cfg; 5] = [
+                ("hitresult_priority(WorstCase)", |p| p.hitresult_priority(HitResultPriority::WorstCase)),
+                ("hitresult_priority(WorstCase).accuracy(85)", |p| p.hitresult_priority(HitResultPriority::WorstCase).accuracy(85.0)),
+                ("accuracy(91).misses(1)", |p| p.accuracy(91.0).misses(1)),
+                ("combo(1).n100(1).n50(1)", |p| p.combo(1).n100(1).n50(1)),
+                // (setters that an osu! calculator does not have — n_geki, n_katu — are dropped by design and not used here)
+                ("accuracy(70).misses(1).passed_objects(2)", |p| p.accuracy(70.0).misses(1).passed_objects(2)),
+            ];
+            for (cname, f) in cfgs {
+                let want = f(Performance::new(&conv).difficulty(d.clone())).calculate();
+                let got = f(Performance::new(src).difficulty(d.clone())).try_mode(tmode).ok().map(Performance::calculate);
+                let got2 = f(Performance::new(src.clone()).difficulty(d.clone())).mode_or_ignore(tmode).calculate();
+                l.checked(3);
+                if !same_opt(&got, &Some(want.clone())) || !same(&got2, &want) {
+                    fail(l, "configuration_lost_in_switch", &ctxs, format!("Performance configured with {cname} and then switched with try_mode / mode_or_ignore differs from the same configuration on the converted map\n try_mode      : {got:?}\n mode_or_ignore: {got2:?}\n converted     : {want:?}"));
+                    return false;
+                }
+            }
+        }
         // mode-specific entry: OsuPerformance::try_mode
         if src.mode == GameMode::Osu {
             let got = rosu_pp::osu::OsuPerformance::new(src).difficulty(d.clone()).try_mode(tmode).ok().map(|p| p.accuracy(97.0).calculate());
